@@ -12,7 +12,7 @@ import re
 from .. import stream
 from . import common
 
-FACTS = ["memo_closed", "file_codegen_src_rule_rs", "file_runtime_src_state_rs"]
+FACTS = common.CODEGEN_FILES
 
 
 def memo_rules(text):
